@@ -84,6 +84,11 @@ CLAIMED = {
   text="Only the token clause is decided (`every cursor token the server hands out is accepted back and stands for the same query, filters included`), for every cursor payload type at once: the instantiated type graphs of all cursor payloads are walked (exported+tagged fields, codec pairs, interface fields rebuilt by an enclosing UnmarshalJSON while every implementation encodes itself), encoder/decoder use the same base64 object and encoding/json, and the operator vocabulary emitted by the builders' MarshalJSON is accepted by the parser. Page arithmetic (next/previous/hasMore, exactly-once enumeration) is numerical and NOT decided.",
   design_ref="DESIGN.md §3 C17",
   technique="type-graph walk over instantiated generics + writer/reader table agreement (static analysis)"),
+ "C09": dict(
+  category="other",
+  text="Structure of the posting→script→transaction path for every list of postings: client text never becomes script text (clean-provenance of every builder write; generated names are counters); one `send` per posting, in the parameter's order, on every path through the loop; source/destination/monetary lines are looked up by the current posting's own fields with the registration's key format; registered values are the posting's fields; vars exported name→value; metadata/reference/timestamp passed by name; vm.Run and OP_SEND copy postings field-by-field and position-by-position; v1 validates before translating, variables are validated before resolution. That the VM turns each generated send into exactly that posting is not decided (C08's undecided part).",
+  design_ref="DESIGN.md §3 C09",
+  technique="clean-provenance dataflow + per-iteration path state machine + field-role tables over SSA (static analysis)"),
 }
 
 NOT_APPLICABLE = {
